@@ -34,7 +34,10 @@ type DocPeer struct {
 	Weight  int           `dials:"weightValue"`
 	Timeout time.Duration `dials:"dial_timeout"`
 	Since   time.Time     `dials:"since"` // a text-unmarshaling struct by value inside a slice element
+	dialed  int           // an unexported field (bookkeeping of the application) inside a slice element
 }
+
+var _ = DocPeer{}.dialed
 
 // DocEmb is embedded in CfgDoc: JSON and Cue read an embedded struct's leaves
 // from the enclosing object, YAML and TOML from a table named after the type
@@ -139,6 +142,7 @@ type DocVal struct {
 	TimeoutNS  map[string]int64 `json:"timeouts_ns"`          // likewise
 	EmptyTags  bool             `json:"empty_tags,omitempty"` // tags: [] (present, empty)
 	EmptyNums  bool             `json:"empty_nums,omitempty"`
+	BigTags    int              `json:"big_tags,omitempty"` // the tags list has this many generated elements (a large document; the elements are not stored in the scenario)
 	EmbN       *int             `json:"emb_n,omitempty"`
 	EmbS       *string          `json:"emb_s,omitempty"`
 	Whens      []string         `json:"whens,omitempty"`
@@ -321,6 +325,14 @@ func genStream(seed uint64, faulty bool) *Scenario {
 	st.Def = g.docVal(40)
 	st.Def.WaitAsInt, st.Def.WaitEsc = false, false
 	st.Val = g.docVal(55)
+	if g.r.IntN(200) == 0 {
+		// a large document: 8 KiB ... 3 MiB, log-uniform (24 bytes per element)
+		n := 300.0
+		for i, k := 0, g.in(0, 85); i < k; i++ {
+			n *= 1.074
+		}
+		st.Val.BigTags, st.Val.EmptyTags = int(n), false
+	}
 	if g.pct(10) {
 		// several documents decoded at the same time (streamconc.go)
 		st.Fault = "concurrent"
@@ -893,7 +905,11 @@ type streamRun struct {
 
 func (r *streamRun) fail(oracle, format string, a ...any) {
 	if len(r.viol) < 20 {
-		r.viol = append(r.viol, Violation{Oracle: oracle, Msg: fmt.Sprintf(format, a...)})
+		msg := fmt.Sprintf(format, a...)
+		if len(msg) > 12000 {
+			msg = msg[:6000] + fmt.Sprintf("\n... (%d bytes left out) ...\n", len(msg)-9000) + msg[len(msg)-3000:]
+		}
+		r.viol = append(r.viol, Violation{Oracle: oracle, Msg: msg})
 	}
 }
 
@@ -913,10 +929,17 @@ func (r *streamRun) decodeVia(format string, rd io.Reader) (*CfgDoc, *captureSou
 }
 
 func runStream(sc *Scenario, res *Result, keepLog bool) {
-	st := sc.Stream
-	if st.Fault == "concurrent" {
+	if sc.Stream.Fault == "concurrent" {
 		runStreamConc(sc, res, keepLog)
 		return
+	}
+	stc := *sc.Stream // (a copy: what is filled in below does not belong in a replay file)
+	st := &stc
+	if n := st.Val.BigTags; n > 0 {
+		st.Val.Tags = make([]string, n)
+		for i := range st.Val.Tags {
+			st.Val.Tags[i] = fmt.Sprintf("host-%06d.example", i)
+		}
 	}
 	// a replay file drops empty lists (omitempty): the flags bring them back
 	for _, v := range []*DocVal{&st.Val, &st.Def} {
@@ -940,6 +963,17 @@ func runStream(sc *Scenario, res *Result, keepLog bool) {
 	for _, f := range order {
 		doc := st.Val.renderDoc(f)
 		clean[f] = doc
+		if st.Val.BigTags > 0 {
+			r.probes["large-document"]++
+			if len(doc) > 1<<20 {
+				r.probes["document-over-1MiB"]++
+			}
+			if f == "cue" && len(doc) > 300<<10 {
+				// the Cue compiler needs more than ten seconds per MiB
+				r.probes["cue-skipped-for-a-large-document"]++
+				continue
+			}
+		}
 		got, src, err := r.decodeVia(f, strings.NewReader(doc))
 		if src.pan != nil {
 			r.fail("crash", "%s decoder panicked on a well-formed document: %v\n%s", f, src.pan, doc)
@@ -958,6 +992,9 @@ func runStream(sc *Scenario, res *Result, keepLog bool) {
 	// the fault
 	if st.Fault != "none" {
 		f := st.Format
+		if f == "cue" && st.Val.BigTags > 0 && len(clean[f]) > 300<<10 {
+			f = "yaml"
+		}
 		doc := []byte(clean[f])
 		k := st.K * len(doc) / 1000
 		switch st.Fault {
